@@ -176,7 +176,7 @@ def failure_key(case, why):
 
 
 def run(ctx, out, replay=None):
-    n = 640 if ctx.quick() else 6000
+    n = 600 if ctx.quick() else 6000
     out.rule = ("same generators as C02: (a) chains on fresh objects (guillotine / sparse / grid / sliver layouts; empty, "
                 "single, multi, full, fixed maps; depths 0-3; layouts with different numbers of x- and y-boundaries), "
                 "must_be_refined probed at 5 thresholds before and after every operation; (b) histories on shared objects: "
